@@ -25,6 +25,15 @@ function verif_apply($res, $op) {
     elseif ($op == 'N5') { $res->noContent(205); }
     elseif ($op == 'X') { $res->writeHeader(202); }
     elseif ($op == 'K') { $res->status(201)->header('X-B', '4')->write('k'); }
+    elseif ($op == 'W0') { $res->write(''); }
+    elseif ($op == 'Wz') { $res->write('0'); }
+    elseif ($op == 'Ws') { $res->write(" \n"); }
+    elseif ($op == 'Wu') { $res->write('héllo✓'); }
+    elseif ($op == 'Wl') { $res->write(str_repeat('x', 70000)); }
+    elseif ($op == 'J0') { $res->json([]); }
+    elseif ($op == 'T0') { $res->html(''); }
+    elseif ($op == 'H0') { $res->header('X-A', ''); }
+    elseif ($op == 'C0') { $res->cookie('c', '', ['path' => '/']); }
     else { verif_note('unknown op ' . $op); }
 }
 
